@@ -10,6 +10,7 @@ from ..core import AnalysisError, FUNC, call_attr, calls_in, const, dotted, is_c
 from .c01 import field_rules
 
 EXPLANATION = [
+    'C18.padding-agreement: a from_bytes that strips padding off its input (rstrip / lstrip) has a serialiser that pads on the same side (ljust / rjust); no two-sided strip().',
     'C18.typeless-address: an address-valued AD structure whose from_bytes builds Address(data) without a type assigns a constant address type in its constructor.',
     'C18.subunit-form: avc.Frame.to_bytes writes the one-byte subunit address under the same test (`subunit_id < 5 or subunit_id == 7`) under which from_bytes reads it, and has the extended forms for the rest.',
     'C18.media-type-position: MediaCodecCapabilities reads its media type from the same position of the first octet as its constructor writes it (both unshifted, or both shifted).',
@@ -964,7 +965,39 @@ def typeless_address(ctx):
     R.check(n >= 2, rule, 'bumble.data_types | typeless address structures', f'{n} classes', f'only {n} found')
 
 
+def padding_agreement(ctx):
+    """A parser that removes padding from a field (`data.rstrip(pad)`) belongs to a serialiser that puts it back
+    (`.ljust(size, pad)`): otherwise the padded wire form parses and re-serialises to shorter bytes.  Padding is removed on
+    the side it is added (rstrip <-> ljust, lstrip <-> rjust); a two-sided strip() cannot be restored."""
+    R, p = ctx.r, ctx.p
+    rule = 'C18.padding-agreement'
+    PAIR = {'rstrip': 'ljust', 'lstrip': 'rjust'}
+    n = 0
+    for mn in ('bumble.data_types', 'bumble.core', 'bumble.hci', 'bumble.gatt', 'bumble.att', 'bumble.sdp', 'bumble.rfcomm', 'bumble.avdtp', 'bumble.avrcp', 'bumble.avc', 'bumble.avctp', 'bumble.l2cap', 'bumble.smp'):
+        m = p.modules.get(mn)
+        if m is None:
+            R.bad(rule, mn, 'anchor missing')
+            continue
+        for cn, ci in sorted(p.classes.items()):
+            if ci.module is not m:
+                continue
+            fb = ci.methods.get('from_bytes')
+            if fb is None:
+                continue
+            strips = [c for c in calls_in(fb) if call_attr(c) in ('strip', 'rstrip', 'lstrip') and isinstance(c.func.value, ast.Name) and c.func.value.id in [a.arg for a in fb.args.args]]
+            for c in strips:
+                n += 1
+                ser = ci.methods.get('__bytes__') or ci.methods.get('to_bytes')
+                want = PAIR.get(call_attr(c))
+                ok = want is not None and ser is not None and any(call_attr(x) == want for x in calls_in(ser))
+                R.check(ok, rule, f'{cn} | {norm(c)[:40]}', f'the serialiser pads with {want}()', f'{ci.name}.from_bytes removes padding with `{norm(c)[:50]}` but the serialiser does not put it back{"" if want else " (a two-sided strip() also removes leading octets, which no padding restores)"}: the padded wire form re-serialises to other (shorter) bytes', p.loc(c))
+    ctl = ast.parse('class A:\n    @classmethod\n    def from_bytes(cls, data):\n        return cls(data.strip(b"\\0"))\n    def __bytes__(self):\n        return self.v\n')
+    k = [c for c in ast.walk(ctl) if isinstance(c, ast.Call) and isinstance(c.func, ast.Attribute) and c.func.attr == 'strip']
+    R.check(n >= 1 and len(k) == 1, rule, 'codec modules | parsers that remove padding', f'{n} site(s), each with a padding serialiser (positive control matched)', f'{n} sites found')
+
+
 RULES = [
+    ('C18.padding-agreement', padding_agreement),
     ('C18.typeless-address', typeless_address),
     ('C18.subunit-form', subunit_form),
     ('C18.media-type-position', media_type_position),
